@@ -312,6 +312,13 @@ def family_usages():
     for ls in ([[('seq', [a, opt(vv), x, opt(qv)])], [('seq', [b, opt(dv), opt(xx)])]], [[('seq', [a, opt(vv), x, opt(qv)])], [('seq', [b, ('anyopts',)])]],
                [[('seq', [b, opt(dv), opt(xx)])], [('seq', [a, opt(vv), x, opt(qv)])], [('seq', [('cmd', 'c'), opt(qv), opt(vv), opt(y)])]]):
         out.append(([l[0] for l in ls], "T6", av14))
+    # F15: the words `-` and `--` and values that start with a dash
+    av15 = [list(t) for n in range(0, 4) for t in itertools.product(['-', '--', 'v', 'a'], repeat=n)]
+    for l in ([('seq', [x])], [('seq', [opt(x)])], [('seq', [a, x])], [('seq', [('rep', x)])], [('seq', [a, opt(('rep', x))])]):
+        out.append((l, False, av15))
+    av15b = [list(t) for n in range(0, 3) for t in itertools.product(['--out=-1', '--out', '-1', '-o-1', '-o', '--level=-x', 'v', '--out=--', '-'], repeat=n)]
+    for l in ([('seq', [opt(oo), opt(x)])], [('seq', [('anyopts',), opt(x)])]):
+        out.append((l, True, av15b))
     # F5: upper-case positionals, `<x> ...` with a blank before the dots
     F, G = ('pos', 'FILE'), ('pos', 'MY-ARG')
     av5 = [list(t) for n in range(0, 5) for t in itertools.product(['a', 'v', 'w'], repeat=n)]
